@@ -196,17 +196,19 @@ def plugin_explain(ctx: Ctx) -> None:
     import tempfile
 
     from ..harness import lint as L
-    tpl = ("from dataclasses import dataclass\nfrom mypy.nodes import IntExpr\nfrom refurb.error import Error\n\n\n@dataclass\nclass ErrorInfo(Error):\n"
+    tpl = ("from dataclasses import dataclass\nfrom mypy.nodes import IntExpr\nfrom refurb.error import Error\n\n\n@dataclass\nclass {cls}(Error):\n"
            "    \"\"\"\n    Documentation of {tag}.\n    \"\"\"\n\n{prefix}    code = {code}\n    name = \"{name}\"\n    categories = (\"plugcat\",)\n    enabled = {enabled}\n"
-           "    msg: str = \"{tag}\"\n\n\ndef check(node: IntExpr, errors: list[Error]) -> None:\n    errors.append(ErrorInfo.from_node(node))\n")
+           "    msg: str = \"{tag}\"\n\n\ndef check(node: IntExpr, errors: list[Error]) -> None:\n    errors.append({cls}.from_node(node))\n")
     with tempfile.TemporaryDirectory(prefix="c17plug-") as td:
         t = Path(td)
         (t / "plugx").mkdir()
         (t / "plugx" / "__init__.py").write_text("")
         mods = [("default_prefix", "", 900, "plug-default-prefix", True, "FURB900"), ("own_prefix", '    prefix = "XYZ"\n', 100, "plug-own-prefix", True, "XYZ100"),
-                ("opt_in", '    prefix = "XYZ"\n', 101, "plug-opt-in", False, "XYZ101")]
+                ("opt_in", '    prefix = "XYZ"\n', 101, "plug-opt-in", False, "XYZ101"),
+                # the loader takes any Error subclass whose name starts with "Error": --explain has to find the same class
+                ("other_class_name", '    prefix = "XYZ"\n', 102, "plug-other-class-name", True, "XYZ102"), ("three_letters", '    prefix = "ABC"\n', 100, "plug-three-letters", True, "ABC100")]
         for fn, prefix, code, name, enabled, tag in mods:
-            (t / "plugx" / f"{fn}.py").write_text(tpl.format(prefix=prefix, code=code, name=name, enabled=enabled, tag=tag))
+            (t / "plugx" / f"{fn}.py").write_text(tpl.format(prefix=prefix, code=code, name=name, enabled=enabled, tag=tag, cls="ErrorNoEval" if fn == "other_class_name" else "ErrorInfo"))
         (t / "t.py").write_text("a = 1\n")
         (t / "pyproject.toml").write_text('[tool.refurb]\nload = ["plugx"]\n')
         env = {"PYTHONPATH": f"{td}:{L.ENV['PYTHONPATH']}"}
